@@ -36,6 +36,10 @@ type c20Job struct {
 	Hex  string `json:"hex"`
 	// Expect: the binary encoding the reference encoder predicts for the decoded value (every child must produce it)
 	Expect string `json:"expect_binary_hex,omitempty"`
+	// Zones: once decoded in the child, the dates of the value are placed in these locations in turn (gen.Relocate):
+	// same instants, same binary encoding, but the Go value an application would hold (UTC, fixed zones) rather than
+	// what a decoder produces (always Local)
+	Zones []int `json:"date_locations,omitempty"`
 }
 
 type c20Plan struct {
@@ -57,7 +61,10 @@ type c20PlainVersion struct {
 var c20RegisterOnce sync.Once
 
 func c20Register() {
-	c20RegisterOnce.Do(func() { ttlv.RegisterHideTag(0x420094); ttlv.RegisterTag("VerifPlainVersion", 0x540140, reflect.TypeFor[c20PlainVersion]()) })
+	c20RegisterOnce.Do(func() {
+		ttlv.RegisterHideTag(0x420094)
+		ttlv.RegisterTag("VerifPlainVersion", 0x540140, reflect.TypeFor[c20PlainVersion]())
+	})
 }
 
 func c20Fresh(kind string) any {
@@ -121,6 +128,7 @@ func c20Exec(j c20Job, e *c20Encoders) (digest string) {
 	if err := ttlv.UnmarshalTTLV(raw, v); err != nil {
 		return "decode error: " + err.Error()
 	}
+	gen.Relocate(v, j.Zones)
 	if j.Kind == "failing" {
 		return c20Failing(v.(*kmip.RequestMessage), raw, e)
 	}
@@ -376,7 +384,7 @@ func tail(s string) string {
 
 func TestC20History(t *testing.T) {
 	const name = "TestC20History"
-	rec := evid.New("C20", name, "work lists of 2..14 encode/decode jobs (requests and responses of versions 1.0..1.4 and, one in five, of a foreign version 0.x/2.x/3.x, generic values, an application structure that carries a protocol version as plain data, header-less typed values - CryptographicParameters with later-version fields - of mixed versions, and jobs whose calls fail: a request made unencodable by a negative interval, truncated documents) executed by three fresh child processes of the test binary: sequentially (reference), "+
+	rec := evid.New("C20", name, "work lists of 2..14 encode/decode jobs (requests and responses of versions 1.0..1.4 and, one in five, of a foreign version 0.x/2.x/3.x, generic values, an application structure that carries a protocol version as plain data, header-less typed values - CryptographicParameters with later-version fields - of mixed versions, one job in three with its dates placed in UTC / fixed zones after decoding (one date in four repeating the instant of the previous one), and jobs whose calls fail: a request made unencodable by a negative interval, truncated documents) executed by three fresh child processes of the test binary: sequentially (reference), "+
 		"concurrently from a cold start with G in {2,8,32} goroutines released together in a drawn permutation, and on one reused, cleared encoder per encoding after a drawn prefix of unrelated jobs and in reverse order; "+
 		"oracle: per-job digest of the four encodings and of the binary re-encoding after the XML and JSON round trips is identical across the children, every child's binary encoding equals the one the reference encoder predicts for the value alone, and in every child the XML and JSON documents of a typed message decode back to that binary encoding; the race-built variant additionally fails on any reported data race; "+
 		"non-trivial = the list holds messages of at least two different protocol versions or two different kinds; distinct by plan").Attach(t)
@@ -472,6 +480,9 @@ func TestC20History(t *testing.T) {
 				versions[m.Header.ProtocolVersion.String()] = true
 			}
 			kinds[j.Kind] = true
+			if rapid.IntRange(0, 2).Draw(rt, "relocate") == 0 {
+				j.Zones = rapid.SliceOfN(rapid.IntRange(0, 79), 1, 4).Draw(rt, "zones")
+			}
 			p.Jobs = append(p.Jobs, j)
 		}
 		p.Perm = rapid.Permutation(seq(n)).Draw(rt, "perm")
